@@ -26,6 +26,9 @@ type InfluxQLNode struct {
 }
 
 func newInfluxQLNode(et *ExecutingTask, n *pipeline.InfluxQLNode, d NodeDiagnostic) (*InfluxQLNode, error) {
+	if err := validateInfluxQLArgs(n); err != nil {
+		return nil, err
+	}
 	m := &InfluxQLNode{
 		node:                   node{Node: n, et: et, diag: d},
 		n:                      n,
@@ -33,6 +36,47 @@ func newInfluxQLNode(et *ExecutingTask, n *pipeline.InfluxQLNode, d NodeDiagnost
 	}
 	m.node.runF = m.runInfluxQL
 	return m, nil
+}
+
+// validateInfluxQLArgs rejects the arguments that the InfluxQL reducers index, allocate or divide by without a check.
+func validateInfluxQLArgs(n *pipeline.InfluxQLNode) error {
+	positive := func(i int, what string) error {
+		if i >= len(n.Args) {
+			return nil
+		}
+		var v int64
+		switch a := n.Args[i].(type) {
+		case int64:
+			v = a
+		case time.Duration:
+			v = int64(a)
+		default:
+			return nil
+		}
+		if v <= 0 {
+			return fmt.Errorf("%s: %s must be greater than zero, got %v", n.Method, what, n.Args[i])
+		}
+		return nil
+	}
+	switch n.Method {
+	case "top", "bottom":
+		return positive(0, "the number of points")
+	case "movingAverage":
+		return positive(0, "the window")
+	case "elapsed":
+		return positive(0, "the unit")
+	case "holtWinters":
+		for i, what := range []string{"the number of predictions", "the seasonal period"} {
+			if i >= len(n.Args) {
+				break
+			}
+			if v, ok := n.Args[i].(int64); ok && v < 0 {
+				return fmt.Errorf("%s: %s must not be negative, got %d", n.Method, what, v)
+			}
+		}
+		return positive(2, "the interval")
+	}
+	return nil
 }
 
 type reduceContext interface {
